@@ -19,6 +19,9 @@ import (
 type conserver struct {
 	report func(class, detail string)
 	seen   int
+	// propPaths are the pointers of the "properties" maps of schemas, as the model sees them (a member that is merely
+	// *named* "properties" inside definitions, or inside a free-form payload, is not one)
+	propPaths map[string]bool
 }
 
 var (
@@ -110,6 +113,9 @@ func (c *conserver) walk(rv reflect.Value, j interface{}, path []string, where s
 				c.fail("model-text-mismatch "+where+"(map)", path, "text is "+oracle.ValueClass(j))
 			}
 			return
+		}
+		if where == "Schema.properties" && c.propPaths != nil {
+			c.propPaths[oracle.TokensToPointer(path)] = true
 		}
 		var mk []string
 		for _, k := range rv.MapKeys() {
@@ -290,8 +296,8 @@ func (c *conserver) walkStruct(rv reflect.Value, j interface{}, path []string) {
 }
 
 // conserveCheck runs the walker; report receives (class, detail).
-func conserveCheck(v interface{}, parsed interface{}, report func(class, detail string)) int {
-	c := &conserver{report: report}
+func conserveCheck(v interface{}, parsed interface{}, report func(class, detail string)) (int, map[string]bool) {
+	c := &conserver{report: report, propPaths: map[string]bool{}}
 	c.walk(reflect.ValueOf(v), parsed, nil, "root")
-	return c.seen
+	return c.seen, c.propPaths
 }
